@@ -10,4 +10,6 @@ def build(bin_step, py_step, miri_step, fuzz_step):
     S["C07"] = [bin_step("c07"), bin_step("c07", release=True, tiers=("thorough",))]
     S["C08"] = [bin_step("c08"), bin_step("c08", release=True, tiers=("thorough",))]
     S["C09"] = [bin_step("c09"), bin_step("c09", release=True, tiers=("thorough",))]
+    S["C12"] = [bin_step("c12"), bin_step("c12", release=True, tiers=("thorough",))]
+    S["C16"] = [bin_step("c16"), bin_step("c16", release=True, tiers=("thorough",))]
     return S
